@@ -54,16 +54,24 @@ theorem fam_optB (n : String) (o : Option Bool) : ∀ x ∈ optB n o, x.name = n
 
 theorem pt_bound : PlainType "bound" := by unfold PlainType; decide
 
-theorem valid_bound (p : Nat) (tag : String) {pts : List Pt} {lm : Option String} (h2 : 2 ≤ pts.length) (hp : PtsOk pts)
-    (hlm : ∀ v, lm = some v → acceptsV "lineMarking" v = true) :
+theorem boundMarking_ok {lm : String} (h : memberOf CR.Py.Gen.lineMarking lm) :
+    ∀ v, boundMarking lm = some v → acceptsV "lineMarking" v = true := by
+  intro v hv
+  unfold boundMarking at hv
+  split at hv
+  · cases hv
+  · cases hv; exact ok_lineMarking h
+
+theorem valid_bound (p : Nat) (tag : String) {pts : List Pt} {lm : String} (h2 : 2 ≤ pts.length) (hp : PtsOk pts)
+    (hlm : memberOf CR.Py.Gen.lineMarking lm) :
     validNode schema "bound" (boundNode p tag pts lm) = true := by
   have he : elemsOf (schema.content "bound") =
       [{ name := "point", type := "point", min := 2, max := none },
        { name := "lineMarking", type := "lineMarking", min := 0, max := some 1 }] := by decide
-  have hf : FamsOk schema (elemsOf (schema.content "bound")) [pts.map (ptNode p "point"), optLeaf "lineMarking" lm] := by
+  have hf : FamsOk schema (elemsOf (schema.content "bound")) [pts.map (ptNode p "point"), optLeaf "lineMarking" (boundMarking lm)] := by
     rw [he]
     exact ⟨fam_map (fun q hq => ⟨rfl, valid_pt p "point" (hp q hq)⟩), ir_ge _ _ 2 (by simpa using h2),
-           fam_optLeaf _ _ hlm, ir_opt _ _ 1 (len_optLeaf _ _), trivial⟩
+           fam_optLeaf _ _ (boundMarking_ok hlm), ir_opt _ _ 1 (len_optLeaf _ _), trivial⟩
   have := seq_assembly pt_bound (by decide) tag [] (by rfl) _ hf (by
     cases pts with
     | nil => simp at h2
@@ -81,9 +89,10 @@ theorem valid_stopLine (p : Nat) {s : StopLineD} (h : StopOk s) : validNode sche
        { name := "trafficLightRef", type := "trafficLightRef", min := 0, max := none }] := by decide
   have hf : FamsOk schema (elemsOf (schema.content "stopLine"))
       [stopPtNodes p s.pts,
-       optLeaf "lineMarking" s.marking, s.signs.map (refNode "trafficSignRef"), s.lights.map (refNode "trafficLightRef")] := by
+       optLeaf "lineMarking" (s.marking.map lineMarkingLower), s.signs.map (refNode "trafficSignRef"),
+       s.lights.map (refNode "trafficLightRef")] := by
     rw [he, hv]
-    refine ⟨?_, ?_, fam_one rfl (leaf_enum _ _ v hacc), ir_one _ _, fam_refs lk_signRef _ _, ir_any _ _ _,
+    refine ⟨?_, ?_, fam_one rfl (leaf_enum _ _ _ (ok_lineMarkingLower hacc)), ir_one _ _, fam_refs lk_signRef _ _, ir_any _ _ _,
             fam_refs lk_lightRef _ _, ir_any _ _ _, trivial⟩
     · cases hq : s.pts with
       | none => exact fam_nil
@@ -127,7 +136,7 @@ theorem len_adj (tag : String) (o : Option (Int × Bool)) : (adjNode tag o).leng
 
 theorem it_lanelet : IdType "lanelet" := by unfold IdType; decide
 
-theorem unknown_laneletType : acceptsV "laneletType" "unknown" = true := by decide
+theorem unknown_laneletType : memberOf CR.Py.Gen.laneletType "UNKNOWN" := by decide
 
 theorem valid_lanelet (p : Nat) {l : LaneletD} (h : LaneletOk l) : validNode schema "lanelet" (laneletNode p l) = true := by
   obtain ⟨hid, hl2, hlp, hr2, hrp, hlml, hlmr, hstop, hty, how, hbi⟩ := h
@@ -147,21 +156,27 @@ theorem valid_lanelet (p : Nat) {l : LaneletD} (h : LaneletOk l) : validNode sch
   have htypes : ∀ v ∈ typesWritten l.types, acceptsV "laneletType" v = true := by
     intro v hv
     unfold typesWritten at hv
-    split at hv
-    · simp at hv; subst hv; exact unknown_laneletType
-    · exact hty v hv
+    obtain ⟨n, hn, rfl⟩ := List.mem_map.mp hv
+    split at hn
+    · simp at hn; subst hn; exact ok_laneletType unknown_laneletType
+    · exact ok_laneletType (hty n hn)
+  have how' : ∀ v ∈ l.oneWay.map (enumValue CR.Py.Gen.roadUser), acceptsV "vehicleType" v = true := by
+    intro v hv; obtain ⟨n, hn, rfl⟩ := List.mem_map.mp hv; exact ok_roadUser (how n hn)
+  have hbi' : ∀ v ∈ l.bidir.map (enumValue CR.Py.Gen.roadUser), acceptsV "vehicleType" v = true := by
+    intro v hv; obtain ⟨n, hn, rfl⟩ := List.mem_map.mp hv; exact ok_roadUser (hbi n hn)
   have hf : FamsOk schema (elemsOf (schema.content "lanelet"))
       [[boundNode p "leftBound" l.left l.lmLeft], [boundNode p "rightBound" l.right l.lmRight],
        l.pred.map (refNode "predecessor"), l.succ.map (refNode "successor"), adjNode "adjacentLeft" l.adjL,
        adjNode "adjacentRight" l.adjR, optStopNodes p l.stop,
        (typesWritten l.types).map (fun v => leaf "laneletType" v.toList),
-       l.oneWay.map (fun v => leaf "userOneWay" v.toList), l.bidir.map (fun v => leaf "userBidirectional" v.toList),
+       (l.oneWay.map (enumValue CR.Py.Gen.roadUser)).map (fun v => leaf "userOneWay" v.toList),
+       (l.bidir.map (enumValue CR.Py.Gen.roadUser)).map (fun v => leaf "userBidirectional" v.toList),
        l.signs.map (refNode "trafficSignRef"), l.lights.map (refNode "trafficLightRef")] := by
     rw [he]
     refine ⟨fam_one rfl (valid_bound p _ hl2 hlp hlml), ir_one _ _, fam_one rfl (valid_bound p _ hr2 hrp hlmr), ir_one _ _,
             fam_refs lk_laneletRef _ _, ir_any _ _ _, fam_refs lk_laneletRef _ _, ir_any _ _ _,
             fam_adj _ _, ir_opt _ _ 1 (len_adj _ _), fam_adj _ _, ir_opt _ _ 1 (len_adj _ _), ?_, ?_,
-            fam_enum _ _ htypes, ir_ge _ _ 1 ?_, fam_enum _ _ how, ir_any _ _ _, fam_enum _ _ hbi, ir_any _ _ _,
+            fam_enum _ _ htypes, ir_ge _ _ 1 ?_, fam_enum _ _ how', ir_any _ _ _, fam_enum _ _ hbi', ir_any _ _ _,
             fam_refs lk_signRef _ _, ir_any _ _ _, fam_refs lk_lightRef _ _, ir_any _ _ _, trivial⟩
     · cases hs : l.stop with
       | none => exact fam_nil
@@ -182,15 +197,15 @@ theorem valid_lanelet (p : Nat) {l : LaneletD} (h : LaneletOk l) : validNode sch
 theorem pt_signElement : PlainType "trafficSign/trafficSignElement" := by unfold PlainType; decide
 theorem it_sign : IdType "trafficSign" := by unfold IdType; decide
 
-theorem valid_signElement {e : String × List String} (h : acceptsV "trafficSignID" e.1 = true) :
+theorem valid_signElement {e : String × String × List String} (h : SignElemOk e) :
     validNode schema "trafficSign/trafficSignElement" (signElementNode e) = true := by
   have he : elemsOf (schema.content "trafficSign/trafficSignElement") =
       [{ name := "trafficSignID", type := "trafficSignID", min := 1, max := some 1 },
        { name := "additionalValue", type := "xs:string", min := 0, max := none }] := by decide
   have hf : FamsOk schema (elemsOf (schema.content "trafficSign/trafficSignElement"))
-      [[leaf "trafficSignID" e.1.toList], e.2.map (fun v => leaf "additionalValue" v.toList)] := by
+      [[leaf "trafficSignID" (signValue e.1 e.2.1).toList], e.2.2.map (fun v => leaf "additionalValue" v.toList)] := by
     rw [he]
-    exact ⟨fam_one rfl (leaf_enum _ _ _ h), ir_one _ _, fam_map (fun v _ => ⟨rfl, leaf_string _ _⟩), ir_any _ _ _, trivial⟩
+    exact ⟨fam_one rfl (leaf_enum _ _ _ (ok_sign h)), ir_one _ _, fam_map (fun v _ => ⟨rfl, leaf_string _ _⟩), ir_any _ _ _, trivial⟩
   have := seq_assembly pt_signElement (by decide) "trafficSignElement" [] (by rfl) _ hf (by simp)
   simpa [signElementNode, el] using this
 
@@ -223,12 +238,12 @@ theorem pt_cycleElement : PlainType "trafficCycleElement" := by unfold PlainType
 theorem pt_cycle : PlainType "trafficLightCycle" := by unfold PlainType; decide
 theorem it_light : IdType "trafficLight" := by unfold IdType; decide
 
-theorem valid_cycleElement {e : Int × String} (h1 : 1 ≤ e.1) (h2 : acceptsV "trafficLightColor" e.2 = true) :
+theorem valid_cycleElement {e : Int × String} (h1 : 1 ≤ e.1) (h2 : memberOf CR.Py.Gen.trafficLightState e.2) :
     validNode schema "trafficCycleElement" (cycleElementNode e) = true := by
   have hm : matchGroup (schema.content "trafficCycleElement") ["duration", "color"] = some ["xs:positiveInteger", "trafficLightColor"] := by
     decide
   rw [cycleElementNode, el_valid pt_cycleElement (ts := ["xs:positiveInteger", "trafficLightColor"]) (by simpa [leaf, Xml.name] using hm)]
-  simp only [validKids, leaf_posint _ h1, leaf_enum _ _ _ h2, Bool.and_self]
+  simp only [validKids, leaf_posint _ h1, leaf_enum _ _ _ (ok_lightState h2), Bool.and_self]
 
 theorem fam_offset (o : Option Int) : ∀ x ∈ offsetNodes o, x.name = "timeOffset" ∧ validNode schema "xs:positiveInteger" x = true := by
   cases o with
@@ -245,7 +260,7 @@ theorem len_offset (o : Option Int) : (offsetNodes o).length ≤ 1 := by
   | some v => simp only [offsetNodes]; split <;> simp
 
 theorem valid_cycle {es : List (Int × String)} (off : Option Int) (hne : es ≠ [])
-    (h : ∀ e ∈ es, 1 ≤ e.1 ∧ acceptsV "trafficLightColor" e.2 = true) :
+    (h : ∀ e ∈ es, 1 ≤ e.1 ∧ memberOf CR.Py.Gen.trafficLightState e.2) :
     validNode schema "trafficLightCycle" (cycleNode es off) = true := by
   have he : elemsOf (schema.content "trafficLightCycle") =
       [{ name := "cycleElement", type := "trafficCycleElement", min := 1, max := none },
@@ -272,9 +287,15 @@ theorem valid_light (p : Nat) {l : LightD} (h : LightOk l) : validNode schema "t
        { name := "direction", type := "trafficLight/direction", min := 0, max := some 1 },
        { name := "active", type := "xs:boolean", min := 0, max := some 1 }] := by decide
   have hf : FamsOk schema (elemsOf (schema.content "trafficLight"))
-      [[cycleNode es off], optPosNodes p l.pos, optLeaf "direction" l.direction, optB "active" l.active] := by
+      [[cycleNode es off], optPosNodes p l.pos, optLeaf "direction" (lightDirection l.direction), optB "active" l.active] := by
     rw [he]
-    refine ⟨fam_one rfl (valid_cycle off hne hes), ir_one _ _, ?_, ?_, fam_optLeaf _ _ hdir, ir_opt _ _ 1 (len_optLeaf _ _),
+    have hdir' : ∀ v, lightDirection l.direction = some v → acceptsV "trafficLight/direction" v = true := by
+      intro v hv
+      unfold lightDirection at hv
+      split at hv
+      · cases hv
+      · cases hv; exact ok_lightDirection hdir
+    refine ⟨fam_one rfl (valid_cycle off hne hes), ir_one _ _, ?_, ?_, fam_optLeaf _ _ hdir', ir_opt _ _ 1 (len_optLeaf _ _),
             fam_optB _ _, ir_opt _ _ 1 (len_optB _ _), trivial⟩
     · cases hq : l.pos with
       | none => exact fam_nil
